@@ -493,7 +493,8 @@ HOSTILE_JS = [b'var a = "http://[bad/"; var b = "//"; var c = "http://a.test:999
               b'\xff\xfe"\x00h\x00', b'var x = "\\u{110000} \\xZZ http://a.test/\\";', b'{"url":"http:\\/\\/[bad\\/", "a":"\\ud800"}']
 # links in schemes that carry their own syntax (data: media types, scheme-only, odd ports) in positions every scraper reads
 _ODD_LINKS = [b'data:a/b/c,x/', b'data:,/', b'data:/,/', b'data:;base64,/', b'data:text/html;charset==,/', b'javascript:/', b'mailto:/x/', b'http:/', b'http:', b'://x/',
-              b'http://a.test:/x/', b'http://a.test:0x50/', b'//:80/', b'/\\a.test/', b'http://a.test/\\ud800/', b'ftp://a.test:99999/', b'http://%zz/', b'http://a..test./x/', b'file:///etc/', b'/%00/']
+              b'http://a.test:/x/', b'http://a.test:0x50/', b'//:80/', b'/\\a.test/', b'http://a.test/\\ud800/', b'ftp://a.test:99999/', b'http://%zz/', b'http://a..test./x/', b'file:///etc/', b'/%00/',
+              b'/item/{id}/view#!tab=1', b'/x{1}/#!a', b'/y}/#!b', b'/z/?q={0}#!c=%s', b'/s/?sid=0123456789abcdef0123456789abcdef&PHPSESSID={}']
 # names that no file system takes: more directory levels than os.makedirs can recurse through, a path beyond PATH_MAX made of
 # components that each fit (the per-component limit of --max-filename-length does not bound the whole path)
 _DEEP_LINKS = [b'/deep/' + b'd/' * 1200 + b'x.html', b'/long/' + (b'c' * 150 + b'/') * 40 + b'y.html']
